@@ -444,7 +444,9 @@ impl ParsedValue {
         let (before, rest) = value.split_once('<')?;
         let (ident, after) = rest.split_once('>')?;
 
-        let skip = before.len() + ident.len() + 2;
+        // when this `<` turns out not to open a component only the `<` itself is skipped:
+        // the next opening tag can start before the `>` found here (`1 < 2 and <b>bold</b>`).
+        let skip = before.len() + 1;
 
         Some((before, ident.trim(), after, skip))
     }
